@@ -2,6 +2,7 @@ package props
 
 import (
 	"go/token"
+	"strconv"
 	"verif/checker/internal/ana"
 
 	"golang.org/x/tools/go/ssa"
@@ -160,3 +161,133 @@ func edgeMustPass(fn *ssa.Function, e ana.Edge, edges []ana.Edge) bool {
 	}
 	return mustPass(fn, e.From, edges)
 }
+
+// rangeLoop describes `for i := range coll` / `for i, x := range coll` over a
+// slice, array or string (index form or rune iterator form).
+type rangeLoop struct {
+	Header    *ssa.BasicBlock
+	Blocks    map[*ssa.BasicBlock]bool
+	Coll      *ana.Term
+	BodyEntry *ssa.BasicBlock
+	Exit      *ssa.BasicBlock
+	Back      []ana.Edge
+	Runes     bool
+}
+
+// rangeLoops finds the range loops of b's function.
+func rangeLoops(b *ana.Builder) []rangeLoop {
+	var out []rangeLoop
+	byHeader := map[*ssa.BasicBlock][]ana.Edge{}
+	for _, e := range ana.BackEdges(b.Fn) {
+		byHeader[e.To] = append(byHeader[e.To], e)
+	}
+	for _, ce := range b.CondEdges() {
+		if !ce.Taken {
+			continue
+		}
+		backs, ok := byHeader[ce.From]
+		if !ok {
+			continue
+		}
+		var coll *ana.Term
+		runes := false
+		if bd, ok := ana.Match("bin<<>(bin<+>(ind<+1>(-1), 1), len($c))", ce.Lit); ok {
+			coll = bd["$c"]
+		} else if bd, ok := ana.Match("ext#0(next(range($c)))", ce.Lit); ok {
+			coll = bd["$c"]
+			runes = true
+		} else {
+			continue
+		}
+		blocks := map[*ssa.BasicBlock]bool{}
+		for _, e := range backs {
+			for k := range ana.LoopBlocks(e) {
+				blocks[k] = true
+			}
+		}
+		out = append(out, rangeLoop{Header: ce.From, Blocks: blocks, Coll: coll, BodyEntry: ce.From.Succs[0], Exit: ce.From.Succs[1], Back: backs, Runes: runes})
+	}
+	return out
+}
+
+// forAll reports whether every iteration of the loop that continues (takes a
+// back edge) has passed an edge whose literal matches one of the patterns.
+func forAll(b *ana.Builder, l rangeLoop, patterns ...string) bool {
+	es := plainEdges(edgesMatching(b, patterns...))
+	if len(es) == 0 {
+		return false
+	}
+	reach := ana.ReachableFrom(l.BodyEntry, append(append([]ana.Edge{}, es...), ana.Edge{From: l.Header, To: l.Exit}))
+	for _, be := range l.Back {
+		isRemoved := false
+		for _, e := range es {
+			if e == be {
+				isRemoved = true
+			}
+		}
+		if isRemoved {
+			continue
+		}
+		if reach[be.From] {
+			// reachable without passing the predicate edge — unless the only way is through the header again
+			return false
+		}
+	}
+	return true
+}
+
+// calleeOf returns the repository function called by the call a term stems from.
+func calleeOf(t *ana.Term) *ssa.Function {
+	if t == nil || t.V == nil {
+		return nil
+	}
+	switch x := t.V.(type) {
+	case *ssa.Call:
+		return ana.StaticRepoCallee(&x.Call)
+	case *ssa.Extract:
+		if c, ok := x.Tuple.(*ssa.Call); ok {
+			return ana.StaticRepoCallee(&c.Call)
+		}
+	}
+	return nil
+}
+
+// int64Set renders a set of integers compactly.
+func setString(s map[int64]bool) string {
+	var xs []int64
+	for x := range s {
+		xs = append(xs, x)
+	}
+	sortInt64(xs)
+	var sb []byte
+	sb = append(sb, '{')
+	for i, x := range xs {
+		if i > 0 {
+			sb = append(sb, ',')
+		}
+		sb = append(sb, []byte(itoa(x))...)
+	}
+	return string(append(sb, '}'))
+}
+
+func setEqual(s map[int64]bool, want []int64) bool {
+	if len(s) != len(want) {
+		return false
+	}
+	for _, w := range want {
+		if !s[w] {
+			return false
+		}
+	}
+	return true
+}
+
+func sortInt64(xs []int64) {
+	for i := 1; i < len(xs); i++ {
+		for j := i; j > 0 && xs[j-1] > xs[j]; j-- {
+			xs[j-1], xs[j] = xs[j], xs[j-1]
+		}
+	}
+}
+
+func itoa(x int64) string { return strconv.FormatInt(x, 10) }
